@@ -102,6 +102,7 @@ class Sched:
         self.line_prob = line_prob
         self.effect_hook = None
         self.switch_hook = None  # callable(from_task, to_task)
+        self.no_yield = 0  # >0: yield points are ignored (critical section)
         self.vtime = 0.0
         # PCT change points (decision numbers at which the leader is demoted)
         self._pct_points = set()
@@ -283,8 +284,10 @@ class Sched:
         if self.aborting:
             raise SimAbort()
         me = self.cur
-        if _real_threading.current_thread() is not me.thread:
-            # A thread the simulator does not own: not a yield point.
+        if self.no_yield or _real_threading.current_thread() is not me.thread:
+            # A thread the simulator does not own / a critical section of the
+            # harness itself (e.g. a finaliser running inside Thread.start):
+            # not a yield point.
             return
         me.state = RUNNABLE
         me.reason = reason
@@ -353,8 +356,8 @@ class Sched:
         task = self._new_task(name)
 
         def entry() -> None:
-            self._thread_entry(task)
             try:
+                self._thread_entry(task)
                 fn()
             except SimAbort:
                 pass
@@ -367,7 +370,11 @@ class Sched:
                                     name=f"sim-{task.tid}")
         task.thread = th
         task.state = RUNNABLE
-        th.start()
+        self.no_yield += 1
+        try:
+            th.start()
+        finally:
+            self.no_yield -= 1
         return task
 
     def register_thread(self, th, name: str) -> Task:
@@ -694,8 +701,8 @@ class SimThread(_real_threading.Thread):
         orig_run = self.run
 
         def run_wrapper() -> None:
-            s._thread_entry(task)  # pylint: disable=protected-access
             try:
+                s._thread_entry(task)  # pylint: disable=protected-access
                 orig_run()
             except SimAbort:
                 pass
@@ -707,7 +714,11 @@ class SimThread(_real_threading.Thread):
 
         self.run = run_wrapper  # type: ignore[method-assign]
         self.daemon = True
-        super().start()
+        s.no_yield += 1
+        try:
+            super().start()
+        finally:
+            s.no_yield -= 1
         s.log("start", task.tid)
         s.yield_("thread.start")
 
